@@ -267,7 +267,7 @@ class Resolver:
         if k == "un":
             return ('un', r["op"], self.operand(r["a"], at, depth, seen))
         if k == "discr":
-            return ('discr', self.place(r["place"], at, depth, seen))
+            return ('discr', self.place(r["place"], at, depth, seen), norm(r.get("of", "")))
         if k == "agg":
             ops = [self.operand(o, at, depth, seen) for o in r["ops"]]
             ak = r["ak"]
@@ -348,7 +348,7 @@ def simplify(e):
     if k == 'variant':
         return (k, simplify(e[1]), e[2])
     if k in ('ref', 'deref', 'discr'):
-        return (k, simplify(e[1]))
+        return (k, simplify(e[1])) + tuple(e[2:])
     if k == 'call':
         return (k, e[1], tuple(simplify(a) for a in e[2]), e[3])
     if k == 'bin':
